@@ -2,9 +2,10 @@
 Bridge C14: the definitions regenerated on every check run from the CURRENT Go source
 
   Pandora.Gen.ChosenCases   (area "chosencases": confutil.IsChosenCase; provider.loadAmmo's filter loop; the methods
-                             Provider.Run calls with preload on / off; protoDecoder.LoadAmmo's bounds; NewProvider's source switch)
-  Pandora.Gen.ProvLoops     (area "provloops": loop bodies of runFullScan — with the place of the chosencases filter —
-                             and runPreloaded, sentinel mapping and deferred close of Run, decoderConf.Limit)
+                             Provider.Run calls with preload on / off; protoDecoder.LoadAmmo's bounds; NewProvider's
+                             source switch; loop bodies of runFullScan — with the place of the chosencases filter —
+                             and runPreloaded, sentinel mapping and deferred close of Run, decoderConf.Limit,
+                             capacity of Sink, jsonline scanAmmos)
 
 are what `Pandora.Model.C14` (and the parts of `Pandora.Model.C08` it is built from) say.  A change of the filter
 function, of the place where a path applies it, of a loop guard or counter update, of a `select` result, of the
@@ -12,13 +13,12 @@ sentinel mapping, of the deferred close, or of the bounds of the loading pass ch
 breaks a lemma here; `Props/C14.lean` imports this file, so the property theorems are re-checked against the source.
 -/
 import Pandora.Gen.ChosenCases
-import Pandora.Gen.ProvLoops
 import Pandora.Model.C14
 
 namespace Pandora.Bridge.C14
 open Pandora.Model.C08 hiding fullScan httpRun runFuel run
 open Pandora.Model.C14
-open Pandora.Gen.ChosenCases Pandora.Gen.ProvLoops
+open Pandora.Gen.ChosenCases
 
 variable {σ α : Type}
 
@@ -142,6 +142,18 @@ theorem fullScan_step (scan : σ → ScanRes × σ) (passNum : σ → Nat) (file
         | errLimit => simp
         | errNoAmmo => simp
         | unexpected => simp
+
+/-! ## the JSON-array decoder (`scanAmmos`) is `Model.C08.scanArr` with the decoder's Limit = 0 -/
+
+theorem scanArr_eq (l passes n : Nat) (d : ArrDec) :
+    scanArr ⟨decoderLimit l, passes⟩ n d =
+      ((scanAmmosStep passes n d.ammoNum d.passNum).1,
+       ⟨(scanAmmosStep passes n d.ammoNum d.passNum).2.1, (scanAmmosStep passes n d.ammoNum d.passNum).2.2⟩) := by
+  unfold scanArr scanAmmosStep decoderLimit
+  simp only [ne_eq, not_true_eq_false, false_and, if_false]
+  repeat' split
+  all_goals simp_all
+  all_goals omega
 
 /-! ## Provider.Run -/
 
